@@ -302,30 +302,32 @@ func runC01R5(c *eng.Ctx, r *eng.RuleCtx) {
 	putEvent := p.Method(pkgKem, "resourceInformer", "putEvent")
 	g := p.GraphOf(f)
 	// (a) the replay loop
-	var loop *ast.RangeStmt
-	eng.InspectNoLit(f.Decl.Body, func(n ast.Node) bool {
-		if rs, ok := n.(*ast.RangeStmt); ok {
-			if eng.IsField(info, rs.X, eventBuf) {
-				loop = rs
-			} else if v, isV := eng.SelObj(info, rs.X).(*types.Var); isV && !v.IsField() {
-				// a local alias of the buffer taken earlier (saved := ei.eventBuf)
-				for _, e := range eng.AssignedExprs(info, f.Decl.Body, v) {
-					if eng.IsField(info, e, eventBuf) {
-						loop = rs
-					}
+	isBuf := func(x ast.Expr) bool {
+		if eng.IsField(info, x, eventBuf) {
+			return true
+		}
+		if v, isV := eng.SelObj(info, x).(*types.Var); isV && !v.IsField() {
+			// a local alias of the buffer taken earlier (saved := ei.eventBuf)
+			for _, e := range eng.AssignedExprs(info, f.Decl.Body, v) {
+				if eng.IsField(info, e, eventBuf) {
+					return true
 				}
 			}
 		}
-		return true
-	})
-	if loop == nil || loop.Value == nil || !eng.IsAscendingLoop(info, loop) {
-		r.Bad(f.Key+" replay-loop", f.Decl.Pos(), "no ascending `for _, ev := range ei.eventBuf` replay loop")
+		return false
+	}
+	var el *eng.ElemLoop
+	for _, l := range elemLoopsOver(info, f.Decl.Body, isBuf) {
+		el = l
+	}
+	if el == nil || el.Desc {
+		r.Bad(f.Key+" replay-loop", f.Decl.Pos(), "no ascending loop over ei.eventBuf that replays every buffered event")
 		return
 	}
-	elem := eng.SelObj(info, loop.Value)
+	loop := el.Stmt
 	isPut := func(n *eng.GNode) bool {
 		for _, m := range g.CallsAt(n, func(o types.Object, call *ast.CallExpr) bool {
-			return o == putEvent && len(call.Args) == 1 && eng.SelObj(info, call.Args[0]) == elem
+			return o == putEvent && len(call.Args) == 1 && el.IsElem(call.Args[0])
 		}) {
 			if !m.Defer && !m.Go {
 				return true
@@ -363,9 +365,7 @@ func runC01R5(c *eng.Ctx, r *eng.RuleCtx) {
 			}
 		}
 	}
-	isLoopHead := func(n *eng.GNode) bool {
-		return n.Node == nil && n.Block.Stmt == ast.Stmt(loop) && n.Block.Kind.String() == "RangeLoop"
-	}
+	isLoopHead := isLoopHeadOf(loop)
 	if clear == nil {
 		r.Ok(f.Key+" clear-after-replay", f.Decl.Pos(), "the buffer is not cleared here (nothing can be lost by clearing)")
 	} else {
@@ -715,43 +715,41 @@ func runC01R9(c *eng.Ctx, r *eng.RuleCtx) {
 			"the namespace-add callback reads eventsEnabled before it has stored the new informers: an unlock running in between neither sweeps them nor is seen by them")
 	}
 	// enable is called when the flag is set; start for every informer
-	var loop *ast.RangeStmt
+	var el *eng.ElemLoop
 	for _, call := range callsIn(cinfo, addLit.Lit.Body, isObj(start)) {
-		if l, ok := eng.LoopOf(addLit.Lit.Body, call.Pos()).(*ast.RangeStmt); ok {
-			loop = l
+		if l := elemLoopAt(cinfo, addLit.Lit.Body, call.Pos()); l != nil {
+			el = l
 		}
 	}
-	if loop == nil || loop.Value == nil {
+	if el == nil {
 		r.Bad(ci.Key+" ns-add start-loop", addLit.Lit.Pos(), "informer.start() is not called in a loop over the new informers")
 		return
 	}
-	elem := eng.SelObj(cinfo, loop.Value)
+	loop := el.Stmt
 	callOn := func(m *types.Func) func(n *eng.GNode) bool {
 		return func(n *eng.GNode) bool {
 			return len(ag.CallsAt(n, func(o types.Object, call *ast.CallExpr) bool {
 				s, isS := ast.Unparen(call.Fun).(*ast.SelectorExpr)
-				return o == m && isS && eng.SelObj(cinfo, s.X) == elem
+				return o == m && isS && el.IsElem(s.X)
 			})) > 0
 		}
 	}
 	r.Check(loopBodyMustPass(ag, loop, callOn(start)) && loopNoEarlyExit(ag, loop), ci.Key+" ns-add starts-all", loop.Pos(), "every new informer is started", "an iteration can skip informer.start()")
 	// enable on the flag's true edge: avoiding the false edge of the flag test, every iteration enables
-	flagFalse := ag.FactEdge(func(fc eng.Fact) bool { return !fc.Pos && fc.Y == nil && eng.MentionsField(cinfo, fc.X, enabled, false) })
-	var bodyEntry *eng.GNode
-	for _, n := range ag.Nodes {
-		if n.Node == nil && n.Block.Stmt == ast.Stmt(loop) && n.Block.Kind.String() == "RangeBody" {
-			bodyEntry = n
-		}
-	}
+	flagFalse := ag.FactEdge(func(fc eng.Fact) bool {
+		return !fc.Pos && fc.Y == nil && eng.MentionsField(cinfo, fc.X, enabled, false)
+	})
+	bodyEntry := loopBodyEntryOf(ag, loop)
+	isHead := isLoopHeadOf(loop)
 	okEnable := false
 	if bodyEntry != nil {
 		en := callOn(enable)
 		reach := ag.Reach(eng.Query{From: []*eng.GNode{bodyEntry}, AvoidEdge: flagFalse, AvoidNode: func(n *eng.GNode) bool {
-			return en(n) || (n.Node == nil && n.Block.Stmt == ast.Stmt(loop) && n.Block.Kind.String() == "RangeLoop")
+			return en(n) || isHead(n)
 		}})
 		okEnable = true
 		for n := range reach {
-			if n.Node == nil && n.Block.Stmt == ast.Stmt(loop) && n.Block.Kind.String() == "RangeLoop" {
+			if isHead(n) {
 				okEnable = false
 			}
 			if n.Exit {
@@ -782,12 +780,12 @@ func runC01R10(c *eng.Ctx, r *eng.RuleCtx) {
 	}
 	// wrappers: functions allowed to forward the unlock, each with a reason
 	wrappers := map[string]string{
-		pkgCtrl + ".(*kubernetesBindingsController).UnlockEvents":       "controller API: unlock all monitors of the hook",
-		pkgCtrl + ".(*kubernetesBindingsController).UnlockEventsFor":    "controller API: unlock one monitor",
-		pkgCtrl + ".(*HookController).UnlockKubernetesEvents":           "hook controller facade",
-		pkgCtrl + ".(*HookController).UnlockKubernetesEventsFor":        "hook controller facade",
-		pkgCtrl + ".(*kubernetesBindingsController).UpdateMonitor":      "recreated monitor: 'Synchronization has no meaning for UpdateMonitor' (documented)",
-		pkgCtrl + ".(*HookController).UpdateMonitor":                    "facade of UpdateMonitor (used by addon-operator)",
+		pkgCtrl + ".(*kubernetesBindingsController).UnlockEvents":    "controller API: unlock all monitors of the hook",
+		pkgCtrl + ".(*kubernetesBindingsController).UnlockEventsFor": "controller API: unlock one monitor",
+		pkgCtrl + ".(*HookController).UnlockKubernetesEvents":        "hook controller facade",
+		pkgCtrl + ".(*HookController).UnlockKubernetesEventsFor":     "hook controller facade",
+		pkgCtrl + ".(*kubernetesBindingsController).UpdateMonitor":   "recreated monitor: 'Synchronization has no meaning for UpdateMonitor' (documented)",
+		pkgCtrl + ".(*HookController).UpdateMonitor":                 "facade of UpdateMonitor (used by addon-operator)",
 	}
 	final := pkgOp + ".(*ShellOperator).taskHandleHookRun"
 	// worklist over callee objects
@@ -868,10 +866,10 @@ func runC01R10(c *eng.Ctx, r *eng.RuleCtx) {
 			}
 			return false
 		}))
-		loop, _ := eng.LoopOf(f.Decl.Body, s.Call.Pos()).(*ast.RangeStmt)
-		loopOK := loop != nil && eng.IsField(info, loop.X, monitorIDs) && loop.Value != nil && len(s.Call.Args) == 1 && eng.SelObj(info, s.Call.Args[0]) == eng.SelObj(info, loop.Value)
+		el := elemLoopAt(info, f.Decl.Body, s.Call.Pos())
+		loopOK := el != nil && eng.IsField(info, el.Base, monitorIDs) && len(s.Call.Args) == 1 && el.IsElem(s.Call.Args[0])
 		if loopOK {
-			loopOK = loopBodyMustPass(g, loop, func(m *eng.GNode) bool { return m == n }) && loopNoEarlyExit(g, loop)
+			loopOK = loopBodyMustPass(g, el.Stmt, func(m *eng.GNode) bool { return m == n }) && loopNoEarlyExit(g, el.Stmt)
 		}
 		r.Check(succ && isSync && loopOK, construct, s.Call.Pos(),
 			"unlock is control-dependent on IsSynchronization() && Status==Success and covers every MonitorID",
@@ -979,14 +977,16 @@ func runC01R11(c *eng.Ctx, r *eng.RuleCtx) {
 		return
 	}
 	lg := p.GraphOfLit(lit)
-	calls := callsIn(info, lit.Lit.Body, func(o types.Object, _ *ast.CallExpr) bool { return o != nil && (o.Name() == "AddLast" || o.Name() == "AddFirst" || o.Name() == "AddAfter" || o.Name() == "AddBefore") })
+	calls := callsIn(info, lit.Lit.Body, func(o types.Object, _ *ast.CallExpr) bool {
+		return o != nil && (o.Name() == "AddLast" || o.Name() == "AddFirst" || o.Name() == "AddAfter" || o.Name() == "AddBefore")
+	})
 	if len(calls) != 1 || eng.CalleeOf(info, calls[0]) != addLast {
 		r.Bad(f.Key+" appends-with-AddLast", lit.Lit.Pos(), "tasks created for an event are not appended with exactly one (*TaskQueue).AddLast")
 		return
 	}
 	call := calls[0]
-	loop, _ := eng.LoopOf(lit.Lit.Body, call.Pos()).(*ast.RangeStmt)
-	okLoop := loop != nil && eng.IsAscendingLoop(info, loop) && loop.Value != nil && len(call.Args) == 1 && eng.SelObj(info, call.Args[0]) == eng.SelObj(info, loop.Value) && loopNoEarlyExit(lg, loop)
+	el := elemLoopAt(info, lit.Lit.Body, call.Pos())
+	okLoop := el != nil && !el.Desc && len(call.Args) == 1 && el.IsElem(call.Args[0]) && loopNoEarlyExit(lg, el.Stmt)
 	r.Check(okLoop, f.Key+" ascending-append", call.Pos(), "AddLast(task) in an ascending range over the tasks of the event", "tasks of one event are not appended in ascending order with AddLast(element)")
 	// the queue is Queues[task.GetQueueName()]
 	okQueue := false
@@ -997,7 +997,7 @@ func runC01R11(c *eng.Ctx, r *eng.RuleCtx) {
 				for _, e := range eng.AssignedExprs(info, lit.Lit.Body, qv) {
 					if ix, ok := ast.Unparen(e).(*ast.IndexExpr); ok && eng.IsField(info, ix.X, queues) {
 						if cl, ok := ast.Unparen(ix.Index).(*ast.CallExpr); ok && eng.CalleeOf(info, cl) == getQN {
-							if sel, ok := ast.Unparen(cl.Fun).(*ast.SelectorExpr); ok && eng.SelObj(info, sel.X) == eng.SelObj(info, loop.Value) {
+							if sel, ok := ast.Unparen(cl.Fun).(*ast.SelectorExpr); ok && el.IsElem(sel.X) {
 								okQueue = true
 							}
 						}
@@ -1014,18 +1014,14 @@ func runC01R11(c *eng.Ctx, r *eng.RuleCtx) {
 			x, y, eq, ok := eng.EqAtom(fc)
 			return ok && eq && (eng.IsNil(info, y) || eng.IsNil(info, x))
 		})
-		var bodyEntry *eng.GNode
-		for _, gn := range lg.Nodes {
-			if gn.Node == nil && gn.Block.Stmt == ast.Stmt(loop) && gn.Block.Kind.String() == "RangeBody" {
-				bodyEntry = gn
-			}
-		}
+		bodyEntry := loopBodyEntryOf(lg, el.Stmt)
+		isHead := isLoopHeadOf(el.Stmt)
 		ok := false
 		if bodyEntry != nil && n != nil {
 			reach := lg.Reach(eng.Query{From: []*eng.GNode{bodyEntry}, AvoidEdge: nilEdge, AvoidNode: func(m *eng.GNode) bool { return m == n }})
 			ok = true
 			for m := range reach {
-				if m != n && (m.Exit || (m.Node == nil && m.Block.Stmt == ast.Stmt(loop) && m.Block.Kind.String() == "RangeLoop")) {
+				if m != n && (m.Exit || isHead(m)) {
 					ok = false
 				}
 			}
@@ -1096,10 +1092,9 @@ func runC01R12(c *eng.Ctx, r *eng.RuleCtx) {
 // and the KubeEvent is built only after it.
 func cacheBeforeExit(c *eng.Ctx, r4 *eng.RuleCtx, hwe *eng.Func, evNode *eng.GNode) {
 	p := c.P
-	info := hwe.Pkg.TypesInfo
 	g := p.GraphOf(hwe)
 	cached := p.Field(pkgKem, "resourceInformer", "cachedObjects")
-	cacheWrite := hweCacheWrite(info, cached)
+	cacheWrite := hweCacheWrite(p, hwe, cached)
 	avoid := hweAllowedEarly(p, hwe, g)
 	ex := g.MustPassToExit(eng.Query{FromEntry: true, AvoidEdge: avoid}, cacheWrite)
 	if ex == nil {
@@ -1113,12 +1108,11 @@ func cacheBeforeExit(c *eng.Ctx, r4 *eng.RuleCtx, hwe *eng.Func, evNode *eng.GNo
 	}
 }
 
-func hweCacheWrite(info *types.Info, cached *types.Var) func(n *eng.GNode) bool {
-	return func(n *eng.GNode) bool {
-		if n.Node == nil {
-			return false
-		}
-		switch t := n.Node.(type) {
+// hweCacheWrite: a node of handleWatchEvent that updates cachedObjects: a store / delete on the map, or a call on
+// the informer of a helper method that does so on all of its paths (must-effect summary).
+func hweCacheWrite(p *eng.Prog, hwe *eng.Func, cached *types.Var) func(n *eng.GNode) bool {
+	me := newMustEffect(p, hwe, false, func(info *types.Info, n ast.Node, _ types.Object) bool {
+		switch t := n.(type) {
 		case *ast.AssignStmt:
 			for _, l := range t.Lhs {
 				if ix, ok := ast.Unparen(l).(*ast.IndexExpr); ok && eng.IsField(info, ix.X, cached) {
@@ -1131,7 +1125,8 @@ func hweCacheWrite(info *types.Info, cached *types.Var) func(n *eng.GNode) bool 
 			}
 		}
 		return false
-	}
+	})
+	return me.Node(hwe, nil)
 }
 
 // hweAllowedEarly: edges of the two legitimate early exits (stopped informer, filter error) and the infeasible
